@@ -85,13 +85,16 @@ def run(prop, tier, replay=None):
     for i, s in enumerate(sets + push):
         s["tid"] = i + 1
     by_tid = {s["tid"]: s for s in sets + push}
-    lines, races, wall = [], [], 0.0
+    lines, races, wall, crashes = [], [], 0.0, []
     for kind, scs in (("sets", sets), ("push", push)):
         if scs:
-            ls, rc_, w = fe.replay(work, scs, kind, prop)
+            ls, rc_, w, crash = fe.replay(work, scs, kind, prop)
             lines += ls
             races += rc_
             wall += w
+            if crash:
+                crashes.append((kind,) + crash)
+                print("the %s harness process was killed by a crash in the code under test: %s" % (kind, crash[0]))
     print("replayed %d scenarios on the real explorer code under -race (%d logged lines, %d race reports) in %.1fs" % (
         len(by_tid), len(lines), len(races), wall))
     first_bad, r = fe.validate(work, lines)
@@ -110,6 +113,12 @@ def run(prop, tier, replay=None):
         if racesigs[sig] == 0:
             verdict.add(sig, {"kind": "race detector report", "report": text})
         racesigs[sig] += 1
+    for kind, sig, text, pending in crashes:
+        sc = by_tid.get(pending[0]) if pending else None
+        verdict.add(sig, {"kind": "crash of the code under test outside any call the harness makes (the test process died)",
+                          "harness": kind, "output": text,
+                          "scenario_running": None if sc is None else {"src": sc.get("src"), "init": {k: v for k, v in sc["init"].items() if k != "chain"},
+                                                                       "steps": sc["steps"][:12]}})
     panics = Counter()
     for ln in lines:
         if ln["ev"] == "Panic":      # a call into the code under test panicked (recovered by the harness)
@@ -171,7 +180,7 @@ def run(prop, tier, replay=None):
                 "or index relative to the list, outcome, queue fill / list length) classes",
         "mc_configs": mc_info, "trace_spec_states": r["distinct"], "events": dict(acts),
         "push_outcomes_by_class": dict(outs), "guardian_set_sizes": {str(k): v for k, v in sorted(sizes.items())},
-        "race_reports": dict(racesigs), "panics_recovered": dict(panics),
+        "race_reports": dict(racesigs), "process_crashes": [c[1] for c in crashes], "panics_recovered": dict(panics),
         "updater_ticks": {"went_through": sum(1 for ln in lines if ln["ev"] == "AppendCall" and ln["a"].get("tick")),
                           "fetch_failed": sum(1 for ln in lines if ln["ev"] == "TickFailed"),
                           "startup_from_chain": sum(1 for s in by_tid.values() if s["init"].get("startup"))}, "rejected_lines": dict(rejects), "traces_fully_explained": len(first_bad) - nrej,
